@@ -37,8 +37,9 @@ RULE = ('one bucket per name exported by algopy.nthderiv (enumerated at run time
 ASSUMPTIONS = [
     'mpmath.diff at 45 digits (working precision (45 digits + 20 bits)*(n+1)) is the reference for the n-th derivative; '
     'mpmath, NumPy and SciPy are trusted',
-    'tolerance 1e-9 * max(1, |ref|) (hyperu 1e-7: accuracy of scipy.special.hyperu); order 0 must equal the '
-    'NumPy/SciPy function bit for bit',
+    'tolerance 1e-9 * max(1, |f^(n)(x)|, |x f^(n+1)(x)|) (hyperu 1e-7: accuracy of scipy.special.hyperu): relative to the '
+    'result or to its change under a relative perturbation of the argument (conditioning of the problem itself; only '
+    'matters where factorially large terms cancel); order 0 must equal the NumPy/SciPy function bit for bit',
     'points keep a margin from singularities (reciprocal: |x| >= 0.05; psi/polygamma: distance >= 0.1 from the poles '
     '0,-1,-2,...; domain boundaries: log/sqrt x >= 0.02, arcsin/arccos/arctanh |x| <= 0.97, arccosh x >= 1.03, '
     'log1p x >= -0.95) and a bounded magnitude (|x| <= 6, DOM_POS up to 20)',
@@ -241,27 +242,35 @@ def _as_real_array(v, what):
     return a
 
 
-def _check_values(what, got, refs, shape, tol, stats):
-    """got: returned object; refs: list of mpf / float per element (row-major)"""
+def _scale(name, extras, v, n, ref):
+    """error scale of one element: the magnitude of the result, or of its change under a relative perturbation of
+    the argument (|x f^(n+1)(x)|: conditioning of the mathematical problem; it dominates where factorially large
+    pole terms cancel, e.g. odd orders of psi at negative half-integers, arctan^(16) at x = 1), at least 1"""
+    nxt = _ref(name, extras, v, n + 1)
+    if ref is None or nxt is None or not mpmath.isfinite(ref) or not mpmath.isfinite(nxt):
+        raise Inconclusive('non-finite reference')
+    return max(1.0, float(abs(ref)), abs(v) * float(abs(nxt)))
+
+
+def _check_values(what, got, refs, scales, shape, tol, stats):
+    """got: returned object; refs: list of mpf per element (row-major); scales: list of float"""
     a = _as_real_array(got, what)
     if a.shape != tuple(shape):
         raise Violation('%s: result has shape %s, argument has shape %s' % (what, a.shape, tuple(shape)))
     flat = a.ravel()
     for k, ref in enumerate(refs):
         g = flat[k]
-        if ref is None or not mpmath.isfinite(ref):
-            raise Inconclusive('non-finite reference')
         gi = complex(g).imag
         gr = float(complex(g).real)
-        scale = max(1.0, float(abs(ref)))
+        scale = scales[k]
         if not np.isfinite(gr) or not np.isfinite(gi):
             raise Violation('%s: element %d is %r, reference %s' % (what, k, g, mpmath.nstr(ref, 17)))
         err = float(abs(mpf(gr) - ref)) / scale
         err = max(err, abs(gi) / scale)
         stats.err(err)
         if err > tol:
-            raise Violation('%s: element %d is %r, reference %s (error %.2e relative to max(1,|ref|), tol %.0e)'
-                            % (what, k, g, mpmath.nstr(ref, 17), err, tol))
+            raise Violation('%s: element %d is %r, reference %s (error %.2e relative to %.3e = max(1, |ref|, |x f^(n+1)(x)|), tol %.0e)'
+                            % (what, k, g, mpmath.nstr(ref, 17), err, scale, tol))
 
 
 def _same(a, b):
@@ -294,10 +303,12 @@ def prop_smooth(case, stats):
         raise RuntimeError('generator produced a point outside the declared domain: %s' % what)
     ret, out = _call(name, extras, x, n, case['out'])
     with mp.workdps(DPS):
-        refs = [_ref(name, extras, v, n) for v in _elements(x)]
-        _check_values(what, ret, refs, np.shape(x), spec['tol'], stats)
+        els = _elements(x)
+        refs = [_ref(name, extras, v, n) for v in els]
+        scales = [_scale(name, extras, v, n, r) for v, r in zip(els, refs)]
+        _check_values(what, ret, refs, scales, np.shape(x), spec['tol'], stats)
         if out is not None:
-            _check_values(what + ' [contents of out]', out, refs, np.shape(x), spec['tol'], stats)
+            _check_values(what + ' [contents of out]', out, refs, scales, np.shape(x), spec['tol'], stats)
     if n == 0:
         # order 0 is the function itself
         direct = spec['np'](*extras)(x)
@@ -503,9 +514,9 @@ def buckets(tier):
         if name in SMOOTH:
             slow = SMOOTH[name]['slow']
             bl.append(Bucket(name, (lambda name=name: smooth_cases(name, tier)), prop_smooth,
-                             {'quick': 40 if slow else 120, 'thorough': 250 if slow else 3000},
+                             {'quick': 20 if slow else 120, 'thorough': 150 if slow else 3000},
                              nontrivial=_nontrivial, classes=_classes,
-                             shards={'quick': 2 if slow else 1, 'thorough': 8 if slow else 2},
+                             shards={'quick': 4 if slow else 1, 'thorough': 12 if slow else 2},
                              weight=60.0 if slow else 1.0))
         elif name in PIECEWISE:
             bl.append(Bucket(name, (lambda name=name: piecewise_cases(name, tier)), prop_piecewise,
